@@ -1,5 +1,6 @@
 #!/usr/bin/env python3
-"""Round 4 (one change per property, ten properties): copy the confirmed seeded changes from /tmp/seed/out/<id>/{patch7.diff,demo7.py,meta7.json}
+"""NOTE: /tmp/seed (the round-4 agents' output and scratch worktrees) was removed after the final collection; everything is kept
+under seeded/.  Round 4 (one change per property, ten properties): copy the confirmed seeded changes from /tmp/seed/out/<id>/{patch7.diff,demo7.py,meta7.json}
 into /verif/seeded/<id>/ (as patch7/demo7, entry in meta.json) and append a round-4 section to seeded/MATRIX.md from out/matrix_r4_*.tsv
 (tools/seed_matrix.sh).  Rounds 1-3 are left as they are (their scratch directories are gone)."""
 import json, os, re, shutil, glob
